@@ -30,7 +30,11 @@ class Prop:
         if form.endswith("_op"):
             n = max(n, 2)
         srcs = [ctx.new_source(maxn=4) for _ in range(n)]
-        return {"clock": rng.choice(["test", "test", "historical"]), "form": form, "srcs": srcs, "sources": ctx.sources, "sub_t": 205, "horizon": 2500}
+        sc = {"clock": rng.choice(["test", "test", "historical"]), "form": form, "srcs": srcs, "sources": ctx.sources, "sub_t": 205, "horizon": 3000}
+        off = rng.choice([None, None, None, 37, 123, 411])
+        if off and "combine_latest" not in form:
+            sc["sub2_t"] = 205 + off
+        return sc
 
     def build(self, w, sc):
         f = sc["form"]
